@@ -423,6 +423,91 @@ def rule_defuse(rep):
         rep.violates(R, "xclosure_wrapper", "copy/move constructors defaulted", detail="the copy and move constructors are no longer both defaulted: copying a wrapper may no longer designate the same referent")
 
 
+MOVE_DRIVER = ('#include "xtl/xoptional.hpp"\n#include <utility>\n'
+               'namespace wxtl { struct Pay { Pay(); Pay(const Pay&); Pay(Pay&&) noexcept; Pay& operator=(const Pay&); Pay& operator=(Pay&&) noexcept; };\n'
+               'void use(Pay& x, bool& f) { xtl::xoptional<Pay&, bool&> proxy(x, f); xtl::xoptional<Pay, bool> a(std::move(proxy));\n'
+               '  xtl::xoptional<Pay, bool> b; b = std::move(proxy); xtl::xoptional<Pay, bool> own; xtl::xoptional<Pay, bool> c(std::move(own)); b = std::move(own);\n'
+               '  xtl::xoptional<const Pay&, const bool&> cproxy(x, f); xtl::xoptional<Pay, bool> e(std::move(cproxy)); } }\n')
+
+
+def rule_owned_moves(rep):
+    """an rvalue PROXY (reference closure) does not own what it designates: converting construction / assignment from it must copy the referent, never
+    move from it; decided on instantiations by the constructor / assignment operator of the payload that clang resolved"""
+    rep.rule("C07.moves", "xoptional<T, bool> built or assigned from an rvalue xoptional<T&, bool&> / <const T&, const bool&> copies the referent (the payload's copy "
+                          "constructor / copy assignment is the resolved callee); only an rvalue that owns its value is moved from")
+    R = "C07.moves"
+    d = cj.dump(MOVE_DRIVER, "xtl::")
+    rep.cmd(d.cmd)
+    n = 0
+    for cls in d.walk():
+        if cls.get("kind") != "ClassTemplateSpecializationDecl" or cls.get("name") != "xoptional":
+            continue
+        targs = " ".join(ir.template_args(cls)).replace("wxtl::", "")
+        if not targs.startswith("Pay") or "&" in targs:
+            continue
+        for t in ir.kids(cls):
+            fl = [t] if t.get("kind") in ("CXXConstructorDecl", "CXXMethodDecl") else [f for f in ir.kids(t) if f.get("kind") in ("CXXConstructorDecl", "CXXMethodDecl")] if t.get("kind") == "FunctionTemplateDecl" else []
+            for f in fl:
+                if not ir.has_body(f) or ir.is_template_pattern(d, f) or not ir.params(f):
+                    continue
+                pq = ir.qtype(ir.params(f)[0]).replace("wxtl::", "")
+                if "xoptional<" not in pq or "&&" not in pq:
+                    continue
+                src_is_proxy = "Pay &" in pq.split("xoptional<", 1)[1].split(",")[0] or "Pay&" in pq.split("xoptional<", 1)[1].split(",")[0]
+                is_ctor = f.get("kind") == "CXXConstructorDecl"
+                if not is_ctor and f.get("name") != "operator=":
+                    continue
+                used = []
+                if is_ctor:
+                    for ini in [c for c in ir.kids(f) if c.get("kind") == "CXXCtorInitializer" and (c.get("anyInit") or {}).get("name") == "m_value"]:
+                        for x in [ir.strip(ir.ekids(ini)[0])] + list(ir.walk_expr(ir.ekids(ini)[0])) if ir.ekids(ini) else []:
+                            if x.get("kind") == "CXXConstructExpr" and "Pay" in ir.qtype(x):
+                                used.append(((x.get("ctorType") or {}).get("qualType") or "", x))
+                else:
+                    for x in ir.walk_expr(ir.body(f)):
+                        if x.get("kind") == "CXXOperatorCallExpr":
+                            c_ = ir.strip(ir.ekids(x)[0])
+                            tgt = d.by_id.get((c_.get("referencedDecl") or {}).get("id"))
+                            owner = ir.enclosing_class(d, tgt) if tgt is not None else None
+                            if (c_.get("referencedDecl") or {}).get("name") == "operator=" and owner is not None and owner.get("name") == "Pay":
+                                used.append((ir.qtype(tgt), x))
+                if not used:
+                    continue
+                n += 1
+                label = "xoptional<Pay, bool>::%s(%s)" % ("xoptional" if is_ctor else "operator=", pq)
+                moved = [u for u in used if "&&" in u[0]]
+                if src_is_proxy and moved:
+                    rep.violates(R, label, "the referent of an rvalue proxy is copied, not moved from", where=d.where(moved[0][1]),
+                                 detail="the payload is taken with `%s`: the object the reference closure designates (which the proxy does not own) is moved from" % moved[0][0])
+                elif src_is_proxy:
+                    rep.holds(R, label, "the referent of an rvalue proxy is copied, not moved from", where=d.where(f), detail=used[0][0])
+                elif not moved:
+                    rep.violates(R, label, "an owned value is moved", where=d.where(used[0][1]), detail="the payload of an owning rvalue is taken with `%s`" % used[0][0])
+                else:
+                    rep.holds(R, label, "an owned value is moved", where=d.where(f), detail=moved[0][0])
+    if n < 3:
+        rep.broke("C07.moves: only %d converting constructors / assignments from an rvalue xoptional were found" % n)
+
+
+def rule_bitref(rep):
+    """bitset element references are C07's proxies as well: writing through one must take the SOURCE's bit (decided by C03's exact folding)"""
+    from . import c03
+    from ..report import Report as _R
+    rep.rule("C07.bitref", "xbitset_reference (block type std::size_t): its mask designates exactly bit pos, conversion to bool reads that bit, assignment from bool / from "
+                           "another reference / the compound forms write exactly that bit from the source's truth value (folded for every bit position)")
+    d2 = cj.dump(c03.driver(["std::uint64_t"]), "xtl::")
+    rep.cmd(d2.cmd)
+    inst = c03.gather(d2).get("unsigned long")
+    if inst is None:
+        rep.broke("C07.bitref: xdynamic_bitset<std::size_t> not instantiated")
+        return
+    tmp = _R("C07", rep.tier, rep.level, "")
+    c03.rule_helpers(tmp, inst, "C07.bitref")
+    for i in tmp.instances:
+        if i["function"].startswith("xbitset_reference"):
+            rep.instances.append(i)
+
+
 def run(tier):
     rep = Report("C07", tier, "proof",
                  "Type- and def-use-level: every obligation is a static_assert / must-compile / must-not-compile witness discharged by "
@@ -451,4 +536,6 @@ def run(tier):
         ok, bad = w2.run(rep, std=std, compiler=comp)
         rep.unit("negative witnesses with %s -std=%s: %d, failing %d" % (comp, std, ok + bad, bad))
     rule_defuse(rep)
+    rule_owned_moves(rep)
+    rule_bitref(rep)
     return rep
